@@ -245,15 +245,52 @@ def _worker_init():
         pass
 
 
+class CaseCpuExceeded(BaseException):
+    """raised by the per-case CPU alarm (SIGVTALRM) inside judge"""
+
+
+_CPU_TRIPS = [0]
+
+
+def _cpu_alarm(_sig, _frame):
+    raise CaseCpuExceeded()
+
+
 def _safe_judge(mod, case):
+    # per-case CPU guard: a single case that burns CASE_CPU_S seconds of process CPU time (normal cases take milliseconds) is a
+    # runaway loop in the code under test or in the harness.  A module whose statement bounds running time names the signature
+    # to report (CPU_SIGNATURE); for every other module it is a harness error reported at once instead of by the supervisor.
+    import signal
+    limit = float(os.environ.get("VERIF_CASE_CPU_S", getattr(mod, "CASE_CPU_S", 300)))
+    if _CPU_TRIPS[0]:
+        limit = min(limit, 10.0)          # a runaway case was already found in this worker: do not pay the full budget again and again
+    armed = False
+    try:
+        signal.signal(signal.SIGVTALRM, _cpu_alarm)
+        signal.setitimer(signal.ITIMER_VIRTUAL, limit, 5.0)
+        armed = True
+    except (ValueError, OSError, AttributeError):      # not the main thread / no such timer: run unguarded
+        pass
     try:
         return mod.judge(case)
+    except CaseCpuExceeded:
+        _CPU_TRIPS[0] += 1
+        sig = getattr(mod, "CPU_SIGNATURE", None)
+        if sig is None:
+            raise HarnessError("one case used more than %.0f s of CPU time inside judge\ncase=%s\n%s" % (limit, canon(case)[:2000], traceback.format_exc())) from None
+        out = Outcome()
+        out.nontrivial = True
+        out.fail(sig, "evaluating this case used more than %.0f s of CPU time in-process" % limit, {"cpu_limit_s": limit})
+        return out
     except HarnessError:
         raise
     except BaseException as e:  # noqa: BLE001 - any escape from judge is a harness problem
         raise HarnessError(
             "judge raised %s: %s\ncase=%s\n%s" % (type(e).__name__, e, canon(case)[:2000], traceback.format_exc())
         ) from None
+    finally:
+        if armed:
+            signal.setitimer(signal.ITIMER_VIRTUAL, 0)
 
 
 def _run_generated(mod, tier, seed, shard, n):
